@@ -1,14 +1,15 @@
 package main
 
 import (
-	"sync"
-	"reflect"
+	"bytes"
 	"encoding/json"
 	"fmt"
 	"io"
 	"os"
 	"path/filepath"
+	"reflect"
 	"strings"
+	"sync"
 
 	mxj "github.com/clbanning/mxj/v2"
 	"verif/harness/tagged"
@@ -651,6 +652,74 @@ func replayFile(line []byte, a *Acc) {
 				data, len(ms), e1, len(mr), e2, canonOrNil(first)), l)
 		}
 	}
+	// corruption (not truncation) of ANY one document, the others intact: the Maps read so far -- the documents before the
+	// damaged one, none after it -- and an error.  XML: the name of the document's last end tag is overwritten (or, for an
+	// empty-element document, its '/'); JSON: the opening brace becomes a closing one.
+	if l.ID.Cut == 0 && len(l.Docs) >= 2 {
+		whole := func() []byte {
+			if l.Mode == "json" {
+				return []byte(l.ID.Text)
+			}
+			return xmlStream(l.ID, 0)
+		}
+		for k := range l.Docs {
+			data := whole()
+			doc := data[l.Docs[k].S-1 : l.Docs[k].E]
+			if l.Mode == "json" {
+				doc[0] = '}'
+			} else if i := bytes.LastIndex(doc, []byte("</")); i >= 0 && i+2 < len(doc) {
+				doc[i+2] = '!'
+			} else if i := bytes.LastIndexByte(doc, '/'); i >= 0 {
+				doc[i] = '<'
+			} else {
+				continue
+			}
+			var exp []string
+			for i := 0; i < k; i++ {
+				d := whole()[l.Docs[i].S-1 : l.Docs[i].E]
+				if l.Mode == "json" {
+					m, _ := mxj.NewMapJson(d)
+					exp = append(exp, canonOrNil(m))
+				} else {
+					m, _ := mxj.NewMapXml(d)
+					exp = append(exp, canonOrNil(m))
+				}
+			}
+			name := filepath.Join(dir, fmt.Sprintf("corrupt%d", k))
+			os.WriteFile(name, data, 0o644)
+			ncases++
+			var g1, g2 []string
+			var e1, e2 error
+			if p := guard(func() {
+				if l.Mode == "json" {
+					ms, e := mxj.NewMapsFromJsonFile(name)
+					mr, ee := mxj.NewMapsFromJsonFileRaw(name)
+					e1, e2 = e, ee
+					for _, m := range ms {
+						g1 = append(g1, canonOrNil(m))
+					}
+					for _, m := range mr {
+						g2 = append(g2, canonOrNil(m.M))
+					}
+				} else {
+					ms, e := mxj.NewMapsFromXmlFile(name)
+					mr, ee := mxj.NewMapsFromXmlFileRaw(name)
+					e1, e2 = e, ee
+					for _, m := range ms {
+						g1 = append(g1, canonOrNil(m))
+					}
+					for _, m := range mr {
+						g2 = append(g2, canonOrNil(m.M))
+					}
+				}
+			}); p != "" {
+				a.Mis("file:"+l.Mode+":corrupt-panic", p, l)
+			} else if e1 == nil || e2 == nil || strings.Join(g1, " | ") != strings.Join(exp, " | ") || strings.Join(g2, " | ") != strings.Join(exp, " | ") {
+				a.Mis("file:"+l.Mode+":corrupt", fmt.Sprintf("file %q (document %d of %d corrupted): the file reader returned [%s] (err %v), the Raw reader [%s] (err %v); expected the documents before the damage [%s] and an error",
+					data, k+1, len(l.Docs), strings.Join(g1, " | "), e1, strings.Join(g2, " | "), e2, strings.Join(exp, " | ")), l)
+			}
+		}
+	}
 	// unreadable files: error, no panic
 	for _, bad := range []string{filepath.Join(dir, "missing"), dir} {
 		if p := guard(func() {
@@ -726,6 +795,7 @@ func replayFileRT(line []byte, a *Acc) {
 			orig[i] = t.Norm()
 		}
 		origAll := strings.Join(orig, " | ")
+		cx, cj := subst1(c.Xml), subst1(c.Json) // (placeholders of the specification's ASCII alphabet)
 		// ---- XML
 		fx := filepath.Join(dir, fmt.Sprintf("x%d", ci))
 		cases++
@@ -739,8 +809,8 @@ func replayFileRT(line []byte, a *Acc) {
 			}
 		} else {
 			got, _ := os.ReadFile(fx)
-			if werr != nil || string(got) != c.Xml {
-				one("filert:xml:content", fmt.Sprintf("XmlFile wrote %q (err %v), expected the concatenation %q", got, werr, c.Xml))
+			if werr != nil || string(got) != cx {
+				one("filert:xml:content", fmt.Sprintf("XmlFile wrote %q (err %v), expected the concatenation %q", got, werr, cx))
 			} else {
 				exp := make([]string, len(c.XBack))
 				for i, t := range c.XBack {
@@ -749,7 +819,7 @@ func replayFileRT(line []byte, a *Acc) {
 				expAll := strings.Join(exp, " | ")
 				back, rerr := mxj.NewMapsFromXmlFile(fx)
 				if rerr != nil || canonMaps(back) != expAll {
-					one("filert:xml:readback", fmt.Sprintf("NewMapsFromXmlFile(%q) = [%s] (err %v), expected [%s]", c.Xml, canonMaps(back), rerr, expAll))
+					one("filert:xml:readback", fmt.Sprintf("NewMapsFromXmlFile(%q) = [%s] (err %v), expected [%s]", cx, canonMaps(back), rerr, expAll))
 				}
 				raws, rerr := mxj.NewMapsFromXmlFileRaw(fx)
 				okr := rerr == nil && len(raws) == len(exp)
@@ -758,8 +828,8 @@ func replayFileRT(line []byte, a *Acc) {
 					okr = tagged.CanonGo(raws[i].M) == exp[i]
 					cat += string(raws[i].R)
 				}
-				if !okr || cat != c.Xml {
-					one("filert:xml:readback-raw", fmt.Sprintf("NewMapsFromXmlFileRaw(%q): %d entries (err %v), raw concatenation %q", c.Xml, len(raws), rerr, cat))
+				if !okr || cat != cx {
+					one("filert:xml:readback-raw", fmt.Sprintf("NewMapsFromXmlFileRaw(%q): %d entries (err %v), raw concatenation %q", cx, len(raws), rerr, cat))
 				}
 				for _, ind := range []string{"    ", " ", "\t"} { // (longest first: each later file is shorter or equal)
 					fxi := fx + "i"
@@ -781,17 +851,17 @@ func replayFileRT(line []byte, a *Acc) {
 		longer.JsonFile(fj)
 		werr = ms.JsonFile(fj)
 		got, _ := os.ReadFile(fj)
-		if werr != nil || string(got) != c.Json {
-			one("filert:json:content", fmt.Sprintf("JsonFile wrote %q (err %v), expected %q", got, werr, c.Json))
+		if werr != nil || string(got) != cj {
+			one("filert:json:content", fmt.Sprintf("JsonFile wrote %q (err %v), expected %q", got, werr, cj))
 		} else {
 			back, rerr := mxj.NewMapsFromJsonFile(fj)
 			if rerr != nil || canonMaps(back) != origAll {
-				one("filert:json:readback", fmt.Sprintf("NewMapsFromJsonFile(%q) = [%s] (err %v), expected [%s]", c.Json, canonMaps(back), rerr, origAll))
+				one("filert:json:readback", fmt.Sprintf("NewMapsFromJsonFile(%q) = [%s] (err %v), expected [%s]", cj, canonMaps(back), rerr, origAll))
 			} else if len(back) > 1 {
 				// the Maps read back are independent values: filling the first leaves the others as they were
 				mutateAll(map[string]interface{}(back[0]))
 				if rest := canonMaps(back[1:]); rest != strings.Join(orig[1:], " | ") {
-					one("filert:json:readback-shared", fmt.Sprintf("NewMapsFromJsonFile(%q): after the first Map was changed by the caller the others read [%s], expected [%s]", c.Json, rest, strings.Join(orig[1:], " | ")))
+					one("filert:json:readback-shared", fmt.Sprintf("NewMapsFromJsonFile(%q): after the first Map was changed by the caller the others read [%s], expected [%s]", cj, rest, strings.Join(orig[1:], " | ")))
 				}
 			}
 			raws, rerr := mxj.NewMapsFromJsonFileRaw(fj)
@@ -802,7 +872,7 @@ func replayFileRT(line []byte, a *Acc) {
 				okr = okr && e2 == nil && tagged.CanonGo(m2) == orig[i]
 			}
 			if !okr {
-				one("filert:json:readback-raw", fmt.Sprintf("NewMapsFromJsonFileRaw(%q): %d entries (err %v)", c.Json, len(raws), rerr))
+				one("filert:json:readback-raw", fmt.Sprintf("NewMapsFromJsonFileRaw(%q): %d entries (err %v)", cj, len(raws), rerr))
 			}
 			for _, ind := range []string{"   ", " ", "\t"} {
 				fji := fj + "i"
